@@ -328,13 +328,13 @@ def judge(kind, src, names, kinds):
     if st == 'rejected':
         return ('rejected:' + tree, src)
     try:
-        before = compare_semantics.tables
+        before = compare_semantics.tables; red0 = compare_semantics.reduced
         diff = compare_semantics(kind, src, tree, names, kinds)
     except Unrenderable as e:
         return ('WRONG:malformed', '%s -> tree returned without error cannot be rendered (%s): %s'
                 % (src, e, dump(tree)[:300]))
     if diff is None:
-        return ('equivalent' if compare_semantics.tables > before else 'same', src)
+        return ('equivalent' if compare_semantics.tables > before else 'same', src) + (compare_semantics.reduced > red0,)
     return ('WRONG:' + diff[0].split(' ')[0], '%s -> %s' % (src, diff[1]))
 
 def failing(cname, skel):
@@ -622,7 +622,9 @@ def work_a(chunk):
     else:
         items = chunk
     for cname, skel in items:
-        st, detail = check_a(cname, skel)
+        res = check_a(cname, skel)
+        st, detail = res[0], res[1]
+        if len(res) > 2 and res[2]: sub.count('a:equivalent_by_table_with_reduced_domain')
         sub.count('a:cases')
         sub.count('a:' + st.split(':')[0].lower())
         sub.count('a:context %s: %s' % (cname, st.split(':')[0].lower()))
@@ -633,8 +635,6 @@ def work_a(chunk):
         elif st == 'equivalent' and len(sub.samples) < 1 and nops(skel) >= 2:
             sub.sample(dict(family='a', context=cname, source=detail, verdict='decompiled tree differs structurally, equivalent by truth table'))
         if len(_memo) > 400000: _memo.clear()
-    sub.count('a:truth_tables_completed', compare_semantics.tables); compare_semantics.tables = 0
-    sub.count('a:truth_tables_with_reduced_domain', compare_semantics.reduced); compare_semantics.reduced = 0
     return sub.dump()
 
 def work_b(chunk):
@@ -789,11 +789,11 @@ def run(ctx):
     ctx.guard('family (a) cases', c.get('a:cases', 0), total_a)
     ctx.guard('family (b) cases', c.get('b:cases', 0), len(cases_b))
     ctx.guard('cases the decompiler answered (not rejected) and the oracle judged', judged, 5000)
-    ctx.guard('truth tables completed (structurally different, semantically compared)', c.get('a:truth_tables_completed', 0), 100)
+    ctx.guard('cases decompiled to a structurally different tree and proven equivalent by truth table', c.get('a:equivalent', 0), 100)
     ctx.guard('cache history decompile() calls', c.get('cache:decompile_calls', 0), 500)
     ctx.assume('CPython %d.%d bytecode only (the property is stated for the running version)' % sys.version_info[:2])
     ctx.assume('ast.unparse / compile / eval of CPython are the trusted evaluator of decompiled trees')
-    ctx.assume('truth tables range over {0,1,2} per free name ({None,1} for the operand of `is None`); tables above %d rows use {0,1} for non-None leaves (counted as truth_tables_with_reduced_domain)' % MAX_TABLE)
+    ctx.assume('truth tables range over {0,1,2} per free name ({None,1} for the operand of `is None`); tables above %d rows use {0,1} for non-None leaves (counted as a:equivalent_by_table_with_reduced_domain)' % MAX_TABLE)
     ctx.assume('bytecode shape does not depend on the spelling of free names: every leaf is a distinct global (or closure cell in the closure contexts)')
     return dict(evaluations=evaluations, distinct_nontrivial=judged,
                 rule='every (context, operator skeleton) of family (a) and every (context, wrapper, leaf form) of family (b) '
@@ -805,7 +805,7 @@ def replay(ctx, case):
     fam = case.get('family')
     if fam == 'a':
         skel = totuple(case['skeleton'])
-        st, detail = check_a(case['context'], skel)
+        res = check_a(case['context'], skel); st, detail = res[0], res[1]
         print(st, '|', detail)
         return not st.startswith('WRONG')
     if fam == 'b':
